@@ -6,7 +6,6 @@ From Frugal.proofs Require Import GenEncParams GenTables BytesWire EncodeSpec.
 From Frugal.props Require Import Examples.
 From Frugal Require Import DisciplineChecks.
 From Frugal.proofs Require Import GenEqual.
-From Frugal.proofs Require Import GenDesc.
 Import ListNotations.
 
 Theorem C02_encode_is_put_denote : forall env sid v,
@@ -51,6 +50,3 @@ Proof. split; [exact enc_params_ok_holds | exact tables_ok_holds]. Qed.
 Theorem C02_model_assumptions : equal_ok = true.
 Proof. exact equal_ok_holds. Qed.
 
-(* the descriptor construction of desc.go reads as the model assumes (DisciplineChecks.desc_ok) *)
-Theorem C02_descriptor_shape : desc_ok = true.
-Proof. exact desc_ok_holds. Qed.
